@@ -439,8 +439,12 @@ pub const SETTLE_CAP: usize = 3000;
 pub async fn settle(w: &dyn Observe) -> bool {
     let mut last = w.fingerprint();
     let mut idle = 0;
+    let slow = std::env::var_os("VERIF_SLEEP").is_some();
     for _ in 0..SETTLE_CAP {
         yield_now().await;
+        if slow {
+            ntex::time::sleep(ntex::time::Millis(1)).await;
+        }
         let f = w.fingerprint();
         if f == last {
             idle += 1;
